@@ -1,1 +1,21 @@
-def main : IO Unit := pure ()
+import NfcVerif.Model.Pdu
+open NfcVerif NfcVerif.Pdu
+
+/-- requests: `dec <hex>` | `decat <hex> <off> <size>` | `spec <hex>` | `enc <pdu>` | `len <pdu>` -/
+def handle (line : String) : String :=
+  match line.splitOn " " with
+  | ["dec", h] => match parseHex h with
+    | some d => showPy Pdu.text (Impl.decode d) | none => "bad-op"
+  | ["decat", h, o, s] => match parseHex h, o.toNat?, s.toNat? with
+    | some d, some o, some s => showPy Pdu.text (Impl.decodeAt d o s) | _, _, _ => "bad-op"
+  | ["spec", h] => match parseHex h with
+    | some d => (match Spec.decode d with
+      | some p => "ok " ++ p.text | none => "exc DecodeError")
+    | none => "bad-op"
+  | "enc" :: rest => match Pdu.parse (" ".intercalate rest) with
+    | some p => showPy toHex (Impl.encode p) | none => "bad-op"
+  | "len" :: rest => match Pdu.parse (" ".intercalate rest) with
+    | some p => s!"ok {Impl.len p}" | none => "bad-op"
+  | _ => "bad-op"
+
+def main : IO Unit := runDriver handle
